@@ -129,20 +129,6 @@ pub mod verif {
         sender.max_capacity
     }
 
-    /// The private async `Sender::send_or_wait`.
-    pub fn send_or_wait<'a, T: Channel, FWait: Future<Output = ()> + 'a>(
-        sender: &'a Sender<T>,
-        msg: T::Item,
-        timeout: Duration,
-        elapsed: impl Fn() -> Duration + 'a,
-        wait_until_empty: impl FnMut(&'a Sender<T>, Duration) -> FWait + 'a,
-    ) -> impl Future<Output = Result<(), BatchError<T::Item>>> + 'a
-    where
-        T::Item: 'a,
-    {
-        sender.send_or_wait(msg, timeout, elapsed, wait_until_empty)
-    }
-
     /// `Batch::new()`: (channel, on_take count, on_flush count).
     pub fn batch_new<T: Channel>() -> (T, usize, usize) {
         let b = Batch::<T>::new();
